@@ -312,7 +312,7 @@ theorem runStep_reverse {α} (ops : NumOps α) (numLe : α → α → Bool) (cfg
 
 /-! ### a step of 1 is the plain slice -/
 
-theorem takeWhile_lt_map_range' (s e : Int) : ∀ (n : Nat) (off : Nat),
+theorem takeWhile_lt_map_rangeFrom (s e : Int) : ∀ (n : Nat) (off : Nat),
     ((List.range' off n).map (fun (k : Nat) => s + Int.ofNat k * 1)).takeWhile (fun i => decide (i < e))
       = (List.range' off (min n ((e - s - off).toNat))).map (fun (k : Nat) => s + Int.ofNat k * 1)
   | 0, off => by simp
@@ -320,7 +320,7 @@ theorem takeWhile_lt_map_range' (s e : Int) : ∀ (n : Nat) (off : Nat),
       rw [List.range'_succ, List.map_cons]
       have e1 : Int.ofNat off = (off : Int) := rfl
       by_cases h : s + Int.ofNat off * 1 < e
-      · rw [List.takeWhile_cons_of_pos (by simpa using h), takeWhile_lt_map_range' s e n (off + 1)]
+      · rw [List.takeWhile_cons_of_pos (by simpa using h), takeWhile_lt_map_rangeFrom s e n (off + 1)]
         rw [e1] at h
         have hm : min (n + 1) ((e - s - (off : Int)).toNat) = min n ((e - s - ((off + 1 : Nat) : Int)).toNat) + 1 := by
           push_cast; omega
@@ -330,16 +330,16 @@ theorem takeWhile_lt_map_range' (s e : Int) : ∀ (n : Nat) (off : Nat),
         have hm : min (n + 1) ((e - s - (off : Int)).toNat) = 0 := by omega
         rw [hm]; rfl
 
-theorem filterMap_range'_getElem? {β} (l : List β) : ∀ (m s : Nat),
+theorem filterMap_rangeFrom_getElem? {β} (l : List β) : ∀ (m s : Nat),
     (List.range' s m).filterMap (fun i => l[i]?) = (l.drop s).take m
   | 0, s => by simp
   | m + 1, s => by
       rw [List.range'_succ, List.filterMap_cons]
       by_cases h : s < l.length
-      · rw [List.getElem?_eq_getElem h, filterMap_range'_getElem? l m (s + 1)]
+      · rw [List.getElem?_eq_getElem h, filterMap_rangeFrom_getElem? l m (s + 1)]
         rw [List.drop_eq_getElem_cons h, List.take_succ_cons]
       · have hn : l.length ≤ s := Nat.le_of_not_lt h
-        rw [List.getElem?_eq_none hn, filterMap_range'_getElem? l m (s + 1)]
+        rw [List.getElem?_eq_none hn, filterMap_rangeFrom_getElem? l m (s + 1)]
         rw [List.drop_eq_nil_of_le hn, List.drop_eq_nil_of_le (Nat.le_succ_of_le hn)]
         simp
 
@@ -372,7 +372,7 @@ theorem pySliceStep_one {β} (l : List β) (start stop : Option Int) :
     | none => simp
     | some a => simp only [Option.map_some, Option.getD_some]; unfold normIdx; split <;> omega
   generalize (stop.map (normIdx l.length)).getD l.length = e at hel ⊢
-  rw [List.range_eq_range', takeWhile_lt_map_range' (s : Int) (e : Int) l.length 0, List.map_map]
+  rw [List.range_eq_range', takeWhile_lt_map_rangeFrom (s : Int) (e : Int) l.length 0, List.map_map]
   have hm : min l.length (((e : Int) - (s : Int) - ((0 : Nat) : Int)).toNat) = e - s := by omega
   rw [hm]
   have hmap : (List.range' 0 (e - s)).map (Int.toNat ∘ fun (k : Nat) => (s : Int) + Int.ofNat k * 1) = List.range' s (e - s) := by
@@ -382,7 +382,7 @@ theorem pySliceStep_one {β} (l : List β) (start stop : Option Int) :
       simp only [List.getElem_map, List.getElem_range', Function.comp]
       have e1 : Int.ofNat (0 + 1 * i) = ((0 + 1 * i : Nat) : Int) := rfl
       rw [e1]; omega
-  rw [hmap, filterMap_range'_getElem?]
+  rw [hmap, filterMap_rangeFrom_getElem?]
 
 example : pySliceStep [10, 11, 12, 13, 14] none none (-1) = [14, 13, 12, 11, 10] := by decide
 example : pySliceStep [10, 11, 12, 13, 14] (some 4) (some 1) (-1) = [14, 13, 12] := by decide
